@@ -2,7 +2,7 @@
     [canon c v]: [v] is its own normal form - every omitted plain field holds
     exactly the zero value (so no negative-zero floats), and the fields plenc
     does not encode are zero. *)
-From Plenc Require Import Base Varint Wire VarintProofs WireProofs JsonAny Codec SizeProofs DecBase RoundTripBase RoundTrip.
+From Plenc Require Import Base Varint Wire VarintProofs WireProofs JsonAny Codec SizeProofs DecBase RoundTripBase JsonProofs JsonRoundTrip RoundTrip.
 Open Scope N_scope.
 
 (** map keys pairwise different (as Go's key equality sees them), each new key
@@ -31,6 +31,7 @@ Fixpoint canon (c : codec) (v : val) {struct c} : Prop :=
     Forall (fun e => ((omit kc (fst e) = true -> fst e = zero kc) /\ canon kc (fst e))
                      /\ ((omit vc (snd e) = true -> snd e = zero vc) /\ canon vc (snd e))) es
     /\ keys_fresh [] es
+  | (CJMap | CJArr), VJson p _ => p = false      (* nil and empty containers read back non-nil *)
   | _, _ => True
   end.
 
@@ -207,6 +208,13 @@ Proof.
     destruct Hc' as [Hc1 Hfr].
     rewrite merge_map_proto. cbn [zero].
     rewrite (fold_entries_fresh kc vc IHk IHv Hokk Hokv (e :: es) []); [reflexivity|assumption|assumption|exact Hfr].
+  - (* JSON object *)
+    cbn [wfv] in Hw. destruct v as [| | | | | | | | | | |nm j|]; try contradiction. destruct j as [| | | | | |l|]; try contradiction.
+    cbn [canon] in Hc. subst nm. cbn [merge zero]. destruct Hw as [Hnd _].
+    rewrite (fold_assoc_nodup l []) by exact Hnd. reflexivity.
+  - (* JSON array *)
+    cbn [wfv] in Hw. destruct v as [| | | | | | | | | | |nm j|]; try contradiction. destruct j as [| | | | |l| |]; try contradiction.
+    cbn [canon] in Hc. subst nm. reflexivity.
 Qed.
 
 (** C01: Unmarshal(Marshal(v)) into a fresh variable yields v *)
